@@ -175,7 +175,28 @@ pub struct ChildOutcome {
     pub code: Option<i32>,
     pub signal: Option<i32>,
     pub stdout: Vec<u8>,
+    /// first 16 KiB of stderr
+    pub stderr: Vec<u8>,
     pub timed_out: bool,
+}
+
+/// `src/…:line message` of a Rust panic report on stderr (empty if none).
+pub fn panic_site(stderr: &[u8]) -> String {
+    let t = String::from_utf8_lossy(stderr);
+    let mut lines = t.lines();
+    while let Some(l) = lines.next() {
+        if let Some(i) = l.find("panicked at ") {
+            let loc = l[i + 12..].trim_end_matches(':');
+            let loc = loc.rsplit_once("src/").map(|x| x.1).unwrap_or(loc);
+            let loc = loc.rsplitn(2, ':').last().unwrap_or(loc); // drop the column
+            let msg: String = lines.next().unwrap_or("").chars().take(120).collect();
+            return format!("{loc} {msg}");
+        }
+        if l.contains("has overflowed its stack") || l.contains("memory allocation of") {
+            return l.chars().take(120).collect();
+        }
+    }
+    String::new()
 }
 
 /// Spawn `cmd`, feed `stdin`, wait at most `secs` seconds (kill on time-out).
@@ -183,7 +204,7 @@ pub fn run_child(mut cmd: std::process::Command, stdin: &[u8], secs: u64) -> Res
     use std::io::Read;
     use std::os::unix::process::ExitStatusExt;
     use std::process::Stdio;
-    cmd.stdin(Stdio::piped()).stdout(Stdio::piped()).stderr(Stdio::null());
+    cmd.stdin(Stdio::piped()).stdout(Stdio::piped()).stderr(Stdio::piped());
     let mut ch = cmd.spawn().map_err(|e| format!("spawn: {e}"))?;
     let mut si = ch.stdin.take().unwrap();
     let data = stdin.to_vec();
@@ -200,6 +221,22 @@ pub fn run_child(mut cmd: std::process::Command, stdin: &[u8], secs: u64) -> Res
                 Ok(0) | Err(_) => break,
                 Ok(n) => {
                     if buf.len() < (1 << 20) {
+                        buf.extend_from_slice(&chunk[..n]);
+                    }
+                }
+            }
+        }
+        buf
+    });
+    let mut se = ch.stderr.take().unwrap();
+    let rd_err = std::thread::spawn(move || {
+        let mut buf = Vec::new();
+        let mut chunk = [0u8; 8192];
+        loop {
+            match se.read(&mut chunk) {
+                Ok(0) | Err(_) => break,
+                Ok(n) => {
+                    if buf.len() < (16 << 10) {
                         buf.extend_from_slice(&chunk[..n]);
                     }
                 }
@@ -225,7 +262,8 @@ pub fn run_child(mut cmd: std::process::Command, stdin: &[u8], secs: u64) -> Res
     };
     let _ = wr.join();
     let stdout = rd.join().unwrap_or_default();
-    Ok(ChildOutcome { code: status.code(), signal: status.signal(), stdout, timed_out })
+    let stderr = rd_err.join().unwrap_or_default();
+    Ok(ChildOutcome { code: status.code(), signal: status.signal(), stdout, stderr, timed_out })
 }
 
 /// Re-execute this harness on one request line (`svharness replay`), optionally under an
@@ -251,7 +289,7 @@ pub fn isolated(request: &str, secs: u64, ulimit_kib: Option<u64>) -> String {
         Ok(o) if o.timed_out => "TIMEOUT".into(),
         Ok(o) => {
             if let Some(s) = o.signal {
-                return format!("ABORT SIGNAL:{s}");
+                return format!("ABORT SIGNAL:{s} {}", panic_site(&o.stderr));
             }
             let text = String::from_utf8_lossy(&o.stdout);
             match text.lines().next().and_then(|l| l.split_once('\t')) {
@@ -286,9 +324,9 @@ pub fn cli(args: &[&str], input: &[u8], secs: u64, ulimit_kib: Option<u64>) -> S
             let mut f = Fnv::new();
             f.bytes(&o.stdout);
             match (o.signal, o.code) {
-                (Some(s), _) => format!("ABORT SIGNAL:{s}"),
-                (None, Some(101)) => "PANIC EXIT:101".into(),
-                (None, Some(c)) if c == 134 || c == 137 || c == 139 => format!("ABORT EXIT:{c}"),
+                (Some(s), _) => format!("ABORT SIGNAL:{s} {}", panic_site(&o.stderr)),
+                (None, Some(101)) => format!("PANIC EXIT:101 {}", panic_site(&o.stderr)),
+                (None, Some(c)) if c == 134 || c == 137 || c == 139 => format!("ABORT EXIT:{c} {}", panic_site(&o.stderr)),
                 (None, Some(c)) => format!("EXIT:{c} {:016x}", f.0),
                 (None, None) => "ABORT EXIT:?".into(),
             }
@@ -345,9 +383,9 @@ pub fn cli_batch(args: &[&str], inputs: &[Vec<u8>], stops_on_error: bool, secs: 
             Err(e) => return format!("HARNESS-ERROR {e}"),
             Ok(o) if o.timed_out => Err("TIMEOUT".to_string()),
             Ok(o) => match (o.signal, o.code) {
-                (Some(s), _) => Err(format!("ABORT SIGNAL:{s}")),
-                (None, Some(101)) => Err("PANIC EXIT:101".to_string()),
-                (None, Some(c)) if c == 134 || c == 137 || c == 139 => Err(format!("ABORT EXIT:{c}")),
+                (Some(s), _) => Err(format!("ABORT SIGNAL:{s} {}", panic_site(&o.stderr))),
+                (None, Some(101)) => Err(format!("PANIC EXIT:101 {}", panic_site(&o.stderr))),
+                (None, Some(c)) if c == 134 || c == 137 || c == 139 => Err(format!("ABORT EXIT:{c} {}", panic_site(&o.stderr))),
                 (None, Some(c)) => Ok(c),
                 (None, None) => Err("ABORT EXIT:?".to_string()),
             },
